@@ -1,12 +1,17 @@
 (* C18gen  The TexArgs model is the translated source.
 
    Model/ArgGen.v is regenerated on every run from the Python abstract syntax
-   of ten methods of class TexArgs in TexSoup/data.py (harness/gen_args.py,
+   of twelve methods of class TexArgs in TexSoup/data.py (harness/gen_args.py,
    fail-closed): __init__, __coerce, append, extend, insert, remove, pop,
-   reverse, clear, __getitem__, and the classmethod TexGroup.parse that
-   __coerce calls (C18gen_parse).  NOT translated: __contains__, __str__,
-   __repr__ (outside the language of Model/ArgDSL.v); for them the hand-written
-   m_contains / m_str stay tied to the code by the correspondence only.
+   reverse, clear, __getitem__, __contains__ (C18gen_contains: it returns
+   Args.m_contains), __str__ (C18gen_str: it returns Args.m_str), and the
+   classmethod TexGroup.parse that __coerce calls (C18gen_parse).  NOT
+   translated: __repr__ (repr of a group needs Python's string-literal escaping,
+   outside the language of Model/ArgDSL.v; Args.v has no model of it either).
+   Read, not translated, in __contains__ / __str__ (see the header of ArgDSL.v):
+   group.string is the string the group was built from, str(group) is
+   Args.render, == between groups / strs is the textual Args.item_eqb -- the
+   same readings Args.v and the list primitives remove / index already use.
    `run_meth gen_a_cls M args st` interprets the translated body of M on the
    object st = (the list itself, self.all) -- Args.state, unchanged -- with the
    semantics of Model/ArgDSL.v; `ODone st' r` means it finished inside the
@@ -93,6 +98,23 @@ Theorem C18gen_getitem_slice : forall st lo hi,
 Proof. exact run_getitem_slice. Qed.
 Print Assumptions C18gen_getitem_slice.
 
+(* def __contains__(self, item), item a group or a str: the state is unchanged and the
+   result is m_contains st a =
+     match a with
+     | AS s => existsb (fun g => pstr_eqb s (snd g)) (fst st)         any([item == arg.string ...])
+     | AG g => existsb (fun x => item_eqb (IG x) (IG g)) (fst st)     super().__contains__(item)
+     end *)
+Theorem C18gen_contains : forall st a,
+  run_meth gen_a_cls M_contains [value_of_arg a] st = ODone st (RVal (VBool (m_contains st a))).
+Proof. exact run_contains. Qed.
+Print Assumptions C18gen_contains.
+
+(* def __str__(self): m_str st = py_join (map render (fst st)) *)
+Theorem C18gen_str : forall st,
+  run_meth gen_a_cls M_str [] st = ODone st (RVal (VStr (m_str st))).
+Proof. exact run_str. Qed.
+Print Assumptions C18gen_str.
+
 (* every operation of Args.m_step except membership
    (translated o := match o with OpContains _ => false | _ => true end) *)
 Theorem C18gen_step : forall st o, translated o = true ->
@@ -115,3 +137,22 @@ Theorem C18gen_refines : forall init ops,
   = Some (map obs_ref (ref_run (fst (ref_extend [] init)) ops)).
 Proof. exact gen_session_refines. Qed.
 Print Assumptions C18gen_refines.
+
+(* the same three with membership: EVERY operation of Args.m_step / any sequence *)
+Theorem C18gen_step_all : forall st o,
+  gen_step gen_a_cls st o = Some (done (m_step st o)).
+Proof. exact gen_step_all_ok. Qed.
+Print Assumptions C18gen_step_all.
+
+Theorem C18gen_session_all : forall init ops,
+  snd (m_new init) = ONone ->
+  gen_session gen_a_cls init ops = Some (m_run (fst (m_new init)) ops).
+Proof. exact gen_session_all_ok. Qed.
+Print Assumptions C18gen_session_all.
+
+Theorem C18gen_refines_all : forall init ops,
+  snd (m_new init) = ONone ->
+  option_map (map obs_model) (gen_session gen_a_cls init ops)
+  = Some (map obs_ref (ref_run (fst (ref_extend [] init)) ops)).
+Proof. exact gen_session_refines_all. Qed.
+Print Assumptions C18gen_refines_all.
